@@ -17,4 +17,12 @@ def ticks (p : Int) : Int → Nat → List Int
   | _, 0 => []
   | s, n + 1 => (s + p) :: ticks p (s + p) n
 
+/-- the correspondence clause of the `cadence` family: the first arrival is the period expression
+`period` (the translated source; `fun _ => r` stands for rand.Intn answering r) for the draw that
+arrival implies, that draw is in rand.Intn's range, and every later gap equals the first -/
+def modelOK (period : Int → (Int → Int) → Int) (i : Int) (polls : List Int) : Bool :=
+  let p1 := polls.headD 0
+  let r := p1 - i + Int.tdiv i 10
+  0 ≤ r && r < Int.tdiv (2 * i) 10 && period i (fun _ => r) == p1 && (gaps 0 polls).all (· == p1)
+
 end Setec.Cadence
